@@ -1296,42 +1296,42 @@ package gmars
 //@ func (*forExpander).emitConsume
 //@   panics [C05]
 //@   requires forOK(f)
-//@   modifies f.atEOF, f.nextToken
+//@   modifies f.atEOF, f.nextToken, chan f.tokens
 //@   ensures forOK(f)
 //@ func forLine
 //@   panics [C05]
 //@   requires forOK(f)
-//@   modifies f.*, f.labelBuf[*], f.exprBuf[*], f.forContent[*]
+//@   modifies f.*, f.labelBuf[*], f.exprBuf[*], f.forContent[*], chan f.tokens
 //@   ensures forOK(f)
 //@ func forConsumeLabels
 //@   panics [C05]
 //@   requires forOK(f)
-//@   modifies f.*, f.labelBuf[*], f.exprBuf[*], f.forContent[*]
+//@   modifies f.*, f.labelBuf[*], f.exprBuf[*], f.forContent[*], chan f.tokens
 //@   ensures forOK(f)
 //@ func forConsumeEmitLine
 //@   panics [C05]
 //@   requires forOK(f)
-//@   modifies f.*, f.labelBuf[*], f.exprBuf[*], f.forContent[*]
+//@   modifies f.*, f.labelBuf[*], f.exprBuf[*], f.forContent[*], chan f.tokens
 //@   ensures forOK(f)
 //@ func forConsumeExpression
 //@   panics [C05]
 //@   requires forOK(f)
-//@   modifies f.*, f.labelBuf[*], f.exprBuf[*], f.forContent[*]
+//@   modifies f.*, f.labelBuf[*], f.exprBuf[*], f.forContent[*], chan f.tokens
 //@   ensures forOK(f)
 //@ func forInnerLine
 //@   panics [C05]
 //@   requires forOK(f)
-//@   modifies f.*, f.labelBuf[*], f.exprBuf[*], f.forContent[*]
+//@   modifies f.*, f.labelBuf[*], f.exprBuf[*], f.forContent[*], chan f.tokens
 //@   ensures forOK(f)
 //@ func forInnerEmitConsumeLine
 //@   panics [C05]
 //@   requires forOK(f)
-//@   modifies f.*, f.labelBuf[*], f.exprBuf[*], f.forContent[*]
+//@   modifies f.*, f.labelBuf[*], f.exprBuf[*], f.forContent[*], chan f.tokens
 //@   ensures forOK(f)
 //@ func forWriteLabelsEmitConsumeLine
 //@   panics [C05]
 //@   requires forOK(f)
-//@   modifies f.*, f.labelBuf[*], f.exprBuf[*], f.forContent[*]
+//@   modifies f.*, f.labelBuf[*], f.exprBuf[*], f.forContent[*], chan f.tokens
 //@   ensures forOK(f)
 //@   loop 1
 //@     invariant forOK(f) && 0 - 1 <= rangeindex && rangeindex < len(f.labelBuf)
@@ -1339,21 +1339,21 @@ package gmars
 //@ func forInnerEmitLabels
 //@   panics [C05]
 //@   requires forOK(f)
-//@   modifies f.*, f.labelBuf[*], f.exprBuf[*], f.forContent[*]
+//@   modifies f.*, f.labelBuf[*], f.exprBuf[*], f.forContent[*], chan f.tokens
 //@   ensures forOK(f)
 //@   loop 1
 //@     invariant forOK(f) && 0 - 1 <= rangeindex && rangeindex < len(f.labelBuf) && f.labelBuf == old(f.labelBuf) && (fresh(arr(f.forContent)) || arr(f.forContent) == old(arr(f.forContent)))
 //@ func forInnerLabels
 //@   panics [C05]
 //@   requires forOK(f)
-//@   modifies f.*, f.labelBuf[*], f.exprBuf[*], f.forContent[*]
+//@   modifies f.*, f.labelBuf[*], f.exprBuf[*], f.forContent[*], chan f.tokens
 //@   ensures forOK(f)
 //@   loop 1
 //@     invariant forOK(f) && 0 - 1 <= rangeindex && rangeindex < len(f.forLineLabelsToWrite) && f.forLineLabelsToWrite == old(f.forLineLabelsToWrite)
 //@ func forEmitConsumeStream
 //@   panics [C05]
 //@   requires forOK(f)
-//@   modifies f.atEOF, f.nextToken
+//@   modifies f.atEOF, f.nextToken, chan f.tokens
 //@   loop 1
 //@     invariant forOK(f)
 
@@ -1377,29 +1377,49 @@ package gmars
 //@   modifies nothing
 //@   ensures result.1 == nil ==> 0 - 2147483648 <= result.0 && result.0 <= 2147483647
 //@ func forFor
-//@   panics [C05]
+//@   panics [C05][C08]
 //@   requires forOK(f)
-//@   modifies f.*, f.labelBuf[*], f.exprBuf[*], f.forContent[*], f.forLineLabelsToWrite[*]
+//@   modifies f.*, f.labelBuf[*], f.exprBuf[*], f.forContent[*], f.forLineLabelsToWrite[*], chan f.tokens
 //@   ensures forOK(f)
+// the last label before FOR is the counter, the earlier ones are line labels, renamed __for_<counter>_<label>
+//@   ensures [C08] result != nil && len(old(f.labelBuf)) > 0 ==> f.forCountLabel == old(f.labelBuf[len(f.labelBuf) - 1]) && len(f.forLineLabels) == old(len(f.labelBuf)) - 1
+//@   ensures [C08] result != nil && len(old(f.labelBuf)) == 0 ==> f.forCountLabel == "" && len(f.forLineLabels) == 0
+//@   ensures [C08] result != nil ==> len(f.forLineLabelsToWrite) == len(f.forLineLabels) && len(f.forContent) == 0 && f.forCount == val
+//@   ensures [C08] result != nil ==> (forall k :: 0 <= k && k < len(f.forLineLabels) ==> f.forLineLabelsToWrite[k] == sprintf("__for_%s_%s", zeros()[0 := box_string(f.forCountLabel)][1 := box_string(f.forLineLabels[k])], 2))
 //@   loop 1
 //@     invariant forOK(f) && 0 - 1 <= rangeindex && rangeindex < len(f.exprBuf) && f.exprBuf == old(f.exprBuf) && fresh(arr(expr))
 //@     decreases len(f.exprBuf) - rangeindex
 //@   loop 2
 //@     invariant forOK(f) && 0 - 1 <= rangeindex && rangeindex < len(f.forLineLabels) && len(f.forLineLabelsToWrite) == len(f.forLineLabels) && fresh(arr(f.forLineLabelsToWrite))
+//@     invariant [C08] off(f.forLineLabelsToWrite) == 0 && (forall k :: 0 <= k && k <= rangeindex ==> f.forLineLabelsToWrite[k] == sprintf("__for_%s_%s", zeros()[0 := box_string(f.forCountLabel)][1 := box_string(f.forLineLabels[k])], 2))
 //@     decreases len(f.forLineLabels) - rangeindex
+// what one copy of the FOR body emits for a body token: the counter becomes the number i, a line
+// label becomes its renamed form, everything else is passed through
+//@ pure isLineLabel(f *forExpander, v Str) = exists k :: 0 <= k && k < len(f.forLineLabels) && f.forLineLabels[k] == v
+//@ pure substTok(f *forExpander, tok token, i int) = ite(tok.typ == tokText && tok.val == f.forCountLabel,
+//@      tok{typ: tokNumber}{val: sprintf("%d", zeros()[0 := box_int(i)], 1)},
+//@      ite(tok.typ == tokText && isLineLabel(f, tok.val), tok{typ: tokText}{val: sprintf("__for_%s_%s", zeros()[0 := box_string(f.forCountLabel)][1 := box_string(tok.val)], 2)}, tok))
 //@ func forRof
-//@   panics [C05]
+//@   panics [C05][C08]
 //@   requires forOK(f) && f.forCount <= 2147483647
-//@   modifies f.atEOF, f.nextToken
+//@   modifies f.atEOF, f.nextToken, chan f.tokens
 //@   ensures forOK(f)
 //@   loop 1
 //@     invariant forOK(f)
 //@   loop 2
 //@     invariant forOK(f) && 1 <= i && i <= 2147483648 && f.forCount == old(f.forCount)
+// copies are numbered 1, 2, ... forCount; every copy emits exactly one token per body token
+//@     entry [C08] i == 1
+//@     exit header [C08] i > f.forCount
+//@     backedge [C08] sent(f.tokens) == iter(sent(f.tokens)) + len(f.forContent) && i == iter(i) + 1
 //@     decreases f.forCount + 1 - i
 //@   loop 3
 //@     invariant forOK(f) && 0 - 1 <= rangeindex && rangeindex < len(f.forContent) && 1 <= i && i <= f.forCount
+//@     invariant [C08] sent(f.tokens) == outer(sent(f.tokens)) + rangeindex + 1
+// token j of copy i is the body token j with the counter replaced by i and line labels renamed
+//@     backedge [C08] sent(f.tokens) == iter(sent(f.tokens)) + 1 && lastSent(f.tokens) == substTok(f, f.forContent[rangeindex], i)
 //@     decreases len(f.forContent) - rangeindex
 //@   loop 4
 //@     invariant forOK(f) && 0 - 1 <= rangeindex && rangeindex < len(f.forLineLabels)
+//@     invariant [C08] (forall k :: 0 <= k && k <= rangeindex ==> f.forLineLabels[k] != tok.val) && sent(f.tokens) == outer(sent(f.tokens))
 //@     decreases len(f.forLineLabels) - rangeindex
